@@ -3,6 +3,7 @@
 package clusterimpl
 
 import (
+	"google.golang.org/grpc/internal/xds/xdsclient/xdsresource"
 	"google.golang.org/grpc/balancer"
 	"google.golang.org/grpc/internal/xds/clients"
 	"google.golang.org/grpc/internal/xds/xdsclient"
@@ -47,3 +48,47 @@ func VerifNewPicker(drops []DropConfig, s balancer.State, ls VerifLoadReporter, 
 	}
 	return p
 }
+
+// VerifBalancer wraps a bare clusterImplBalancer whose cluster configuration is driven through the
+// real handleClusterConfigLocked (the EDS-update path) and whose pickers come from the real
+// newPickerLocked.
+type VerifBalancer struct{ b *clusterImplBalancer }
+
+// VerifNewBalancer returns a balancer with no configuration yet.
+func VerifNewBalancer() *VerifBalancer {
+	return &VerifBalancer{b: &clusterImplBalancer{}}
+}
+
+// VerifDrop is one EDS drop overload.
+type VerifDrop struct {
+	Category               string
+	Numerator, Denominator uint32
+}
+
+// ApplyClusterConfig runs the real handleClusterConfigLocked for an EDS cluster with the given drop
+// overloads and max_requests (nil = default), records the child state, and returns the picker the
+// real newPickerLocked builds, with the load store replaced by ls.
+func (v *VerifBalancer) ApplyClusterConfig(cluster string, drops []VerifDrop, maxRequests *uint32, s balancer.State, ls VerifLoadReporter) (balancer.Picker, bool) {
+	var ds []xdsresource.OverloadDropConfig
+	for _, d := range drops {
+		ds = append(ds, xdsresource.OverloadDropConfig{Category: d.Category, Numerator: d.Numerator, Denominator: d.Denominator})
+	}
+	cc := xdsresource.ClusterConfig{
+		Cluster:        &xdsresource.ClusterUpdate{ClusterType: xdsresource.ClusterTypeEDS, ClusterName: cluster, MaxRequests: maxRequests},
+		EndpointConfig: &xdsresource.EndpointConfig{EDSUpdate: &xdsresource.EndpointsUpdate{Drops: ds}},
+	}
+	v.b.mu.Lock()
+	defer v.b.mu.Unlock()
+	changed := v.b.handleClusterConfigLocked(cc)
+	v.b.childState = s
+	p := v.b.newPickerLocked()
+	if ls != nil {
+		p.loadStore = ls
+	} else {
+		p.loadStore = nil
+	}
+	return p, changed
+}
+
+// Counter is the request counter the balancer selected for its cluster.
+func (v *VerifBalancer) Counter() *xdsclient.ClusterRequestsCounter { return v.b.requestCounter }
